@@ -74,7 +74,16 @@ Theorem C13_model_samples_fresh : forall c acq tr s,
   sample_fresh c (mkSample (now s) (alive s) (Some (ftime s)) false) = true.
 Proof. exact model_samples_fresh. Qed.
 
+Theorem C13_model_samples_fresh_now : forall c acq tr s,
+  cfg_ok c -> patched c = true -> 0 <= acq <= D c -> run c (init acq) tr = Some s ->
+  sample_fresh c (mkSample (now s) (alive s) (Some (ftime s)) false) = true.
+Proof.
+  intros c acq tr s Hc Hp Ha Hrun. eapply model_samples_fresh; eauto.
+  exact (run_patched_not_stuck c tr Hp (init acq) s eq_refl Hrun).
+Qed.
+
 Print Assumptions C13_alive_implies_fresh.
+Print Assumptions C13_model_samples_fresh_now.
 Print Assumptions C13_never_wedged.
 Print Assumptions C13_unpatched_alive_implies_fresh_partial.
 Print Assumptions C13_unpatched_refuted.
